@@ -48,7 +48,7 @@ Proof.
 Qed.
 
 Lemma coord_eq_dec (a b : coord) : {a = b} + {a <> b}.
-Proof. repeat decide equality. Qed.
+Proof. repeat decide equality. Defined.
 
 (** a hop-by-hop path: every switch is a grid neighbour of the previous one,
     inside the grid, and exactly one step closer to [dst] *)
